@@ -95,6 +95,8 @@ type msg struct {
 }
 
 type world struct {
+	vcache  map[string]verdict
+	big     bool
 	r       *core.Run
 	dir     string
 	space   *simlib.Space
@@ -177,6 +179,26 @@ func (n *node) aclTo(k int) {
 
 // ---- reference predicate and model -----------------------------------------------------------------
 
+// validCached: valid() memoised on everything the verdict depends on (check() re-judges every stored value
+// after every event; large stores would spend their time re-verifying the same signatures).
+func (w *world) validCached(n *node, kv *spacesyncproto.StoreKeyValue) (bool, string) {
+	key := fmt.Sprintf("%d|%s|%x|%x|%x", n.aclIdx, kv.KeyPeerId, kv.Value, kv.IdentitySignature, kv.PeerSignature)
+	if v, ok := w.vcache[key]; ok {
+		return v.ok, v.why
+	}
+	ok, _, why := w.valid(n, kv)
+	if w.vcache == nil {
+		w.vcache = map[string]verdict{}
+	}
+	w.vcache[key] = verdict{ok, why}
+	return ok, why
+}
+
+type verdict struct {
+	ok  bool
+	why string
+}
+
 // valid: the property's conditions for storing a value on node n (conjuncts over the wire message).
 func (w *world) valid(n *node, kv *spacesyncproto.StoreKeyValue) (ok bool, ts int64, why string) {
 	inner := &spacesyncproto.StoreKeyInner{}
@@ -250,7 +272,7 @@ func (n *node) check(when string) {
 	err := n.store.InnerStorage().IterateValues(ctxb, func(kv innerstorage.KeyValue) (bool, error) {
 		got[kv.KeyPeerId] = slotVal{kv.TimestampMicro, append([]byte{}, kv.Value.Value...)}
 		// what is stored must itself satisfy the property (signatures over exactly the stored bytes...)
-		if ok, _, why := n.w.valid(n, kv.Proto()); !ok {
+		if ok, why := n.w.validCached(n, kv.Proto()); !ok {
 			r.Fail("invalid-value-stored", classify(why), "%s (%s): slot %s holds a value that must not be stored: %s", n.name, when, slotName(kv.KeyPeerId), why)
 		}
 		return true, nil
@@ -404,6 +426,9 @@ func wire(kv *spacesyncproto.StoreKeyValue) *spacesyncproto.StoreKeyValue {
 // and HandleStoreElementsRequest, message by message). breakAt >= 0 ends the stream after that many
 // messages from the server.
 func (w *world) pull(c, s *node, breakAt int, batch int) {
+	if w.big {
+		batch *= 40
+	}
 	rd := keyvalue.NewRemoteDiff(w.space.Id, wireClient{s})
 	newIds, changedIds, theirChangedIds, removedIds, err := c.store.InnerStorage().Diff().CompareDiff(ctxb, rd)
 	if err != nil {
@@ -480,6 +505,43 @@ func (w *world) pull(c, s *node, breakAt int, batch int) {
 		w.r.Fault("stream-break")
 	}
 	w.r.Event("pull", "%s <- %s: new=%d theirs-newer=%d ours-newer=%d only-ours=%d sent=%d/%d broke=%v (%v)", c.name, s.name, len(newIds), len(theirChangedIds), len(changedIds), len(removedIds), len(stream), len(want), broke, errS(err))
+	// one complete exchange makes the two stores equal (both know the whole ACL, nothing failed)
+	if !broke && err == nil && !w.lagRun && c.plan == nil && s.plan == nil {
+		a, b := stored(c), stored(s)
+		if fmt.Sprint(a) != fmt.Sprint(b) {
+			w.r.Fail("exchange-incomplete", "", "after one complete sync exchange %s holds %d values and %s holds %d: %s", c.name, len(a), s.name, len(b), firstDiff(a, b))
+		}
+		w.r.Probe("complete-exchange")
+	}
+}
+
+// stored: what a node's store really holds (slot@timestamp), read back from storage.
+func stored(n *node) []string {
+	var l []string
+	_ = n.store.InnerStorage().IterateValues(ctxb, func(kv innerstorage.KeyValue) (bool, error) {
+		l = append(l, fmt.Sprintf("%s@%d", slotName(kv.KeyPeerId), kv.TimestampMicro))
+		return true, nil
+	})
+	sort.Strings(l)
+	return l
+}
+
+func firstDiff(a, b []string) string {
+	in := func(l []string, x string) bool {
+		i := sort.SearchStrings(l, x)
+		return i < len(l) && l[i] == x
+	}
+	for _, x := range a {
+		if !in(b, x) {
+			return "only the first holds " + x
+		}
+	}
+	for _, x := range b {
+		if !in(a, x) {
+			return "only the second holds " + x
+		}
+	}
+	return "same entries"
 }
 
 // ---- the run ---------------------------------------------------------------------------------------------
@@ -552,6 +614,30 @@ func runC12(r *core.Run) {
 	w.keys = []string{"ka", "kb", "kc"}[:1+s.Choose("nkeys", 3)]
 	faultFree := s.Flip("faultfree", 0.1)
 	steps := s.Range("steps", 10, 70)
+	// a store large enough for a sync answer to carry elements for several ranges at once (rare: it is slow)
+	if s.Flip("big-store", 0.04) {
+		n0 := w.nodes[0]
+		cnt := 257 + s.Choose("big-count", 140)
+		for i := 0; i < cnt; i++ {
+			time.Sleep(time.Millisecond)
+			before := len(w.msgs)
+			must(n0.store.Set(ctxb, fmt.Sprintf("big%03d", i), []byte("v")))
+			if len(w.msgs) > before {
+				kvs := &spacesyncproto.StoreKeyValues{}
+				must(kvs.UnmarshalVT(w.msgs[before].bytes))
+				n0.receive(kvs.KeyValues)
+				if i >= 3 {
+					w.msgs = w.msgs[:before] // never delivered: only a pull brings them over
+				}
+			}
+		}
+		if steps > 15 {
+			steps = 15
+		}
+		w.big = true
+		r.Probe("big-store")
+		r.SetCfg("big_store", cnt)
+	}
 	r.SetCfg("nodes", nnodes)
 	r.SetCfg("acl_lag", w.lagRun)
 	r.SetCfg("storage_fault_node", faultNode)
@@ -635,7 +721,22 @@ func runC12(r *core.Run) {
 		case 5: // byzantine or unusual value pushed to a node
 			dst := w.nodes[s.Choose("byz-dst", len(w.nodes))]
 			kv, what := w.byzValue(byzDevs)
-			b, err := (&spacesyncproto.StoreKeyValues{KeyValues: []*spacesyncproto.StoreKeyValue{kv}}).MarshalVT()
+			batch := []*spacesyncproto.StoreKeyValue{kv}
+			if s.Flip("byz-batch", 0.4) {
+				// one device, several values citing different ACL records in one batch: the verdict is per value
+				dev := byzDevs[s.Choose("batch-dev", len(byzDevs))]
+				batch = nil
+				what = dev.name + " cites"
+				for k := 0; k < 2+s.Choose("batch-more", 2); k++ {
+					acl := w.recIds[s.Choose("batch-acl", len(w.recIds))]
+					key := w.keys[s.Choose("batch-key", len(w.keys))]
+					batch = append(batch, w.craft(dev, dev.acc, key, time.Now().UnixMicro()+int64(s.Choose("batch-ts", 2000))-1000, acl, []byte(fmt.Sprintf("batch-%d", k))))
+					what += fmt.Sprintf(" #%d", w.recIndex(acl))
+				}
+				what += " in one batch"
+				r.Probe("byzantine-batch")
+			}
+			b, err := (&spacesyncproto.StoreKeyValues{KeyValues: batch}).MarshalVT()
 			must(err)
 			w.seq++
 			r.Fault("byzantine-value")
